@@ -25,6 +25,20 @@ def _cases(dss, schemes, all_schemes, max_runs=200):
     return out
 
 
+def _mut_cases(dss, schemes):
+    out = []
+    for k, D in enumerate(dss):
+        U = grids.universe(D)
+        ops = [{"op": "remove_rate", "p": 1, "q": 2}]
+        if [] in D and len(D) > 1:
+            ops.append({"op": "remove_empty"})
+        if len(U) >= 3:
+            ops.append({"op": "remove_elements", "S": [U[k % len(U)]]})
+        out.append({"D": D, "sch": list(schemes[k % len(schemes)]), "naming": ["ints", "letters"][k % 2],
+                    "max_runs": 60, "ops": [ops[k % len(ops)]]})
+    return out
+
+
 def identical(rng, count):
     out = []
     for _ in range(count):
@@ -57,6 +71,10 @@ def stages(tier, rng, only=None, prop=None):
            Stage("identical", "Trace_Kwik", kwikrun.run_all_schedules,
                  lambda: _cases(identical(rng, 150 if tier == "quick" else 1000), SCHEMES + ac.grid_sample(rng, 5), False,
                                 60), _nt, kwikrun.init, post=kwikrun.flatten, aux=aux)]
+    out.append(Stage("reuse_after_mutation", "Trace_Kwik", kwikrun.run_all_schedules,
+                     lambda: _mut_cases(grids.datasets(3, 2)[::2] + [ac.random_dataset(rng, 5, 4, nmin=3)
+                                                                     for _ in range(150 if tier == "quick" else 1500)],
+                                        SCHEMES), _nt, kwikrun.init, post=kwikrun.flatten, aux=aux))
     if tier == "quick":
         out.append(Stage("grid4x2sample", "Trace_Kwik", kwikrun.run_all_schedules,
                          lambda: _cases(grids.datasets(4, 2)[::40], SCHEMES, False), _nt, kwikrun.init,
